@@ -75,6 +75,9 @@ def make_functions():
         ("s_addrelu", r.fns.s_addrelu, lambda a, b: [np.maximum(a + b, 0)], 2, 1, {}),
         ("s_two", r.fns.s_two, lambda a: [-a, np.abs(a)], 1, 2, {}),
         ("s_scale", r.fns.s_scale, lambda a, alpha=1.0: [a * np.float32(alpha)], 1, 1, {"alpha": 1.5}),
+        # regression for e7b46e0 / 1ed6700: an output that is one of the inputs; a defaulted attribute
+        ("swapneg", bf("swapneg", lambda op, a, b: [b, op.Neg(a)], 2), lambda a, b: [b, -a], 2, 2, {}),
+        ("s_default", r.fns.s_default, lambda a, alpha=2.0: [a * np.float32(alpha)], 1, 1, {"alpha?": 1.5}),
     ]
 
     def ovl(name, overload, fn, n):
@@ -228,11 +231,11 @@ class RealExec:
             return a[1]
         return list(a[1])
 
-    def attrs(self, d):
+    def attrs(self, d, plain=False):
         ir = self.r.ir
         out = {}
         for k, v in (d or {}).items():
-            out[k] = ir.AttrFloat32(k, float(v)) if isinstance(v, float) else v
+            out[k] = ir.AttrFloat32(k, float(v)) if (isinstance(v, float) and not plain) else v
         return out
 
     def run(self, items, builder):
@@ -258,13 +261,13 @@ class RealExec:
                 builder.pop_module()
             elif k == "C":
                 o = it.get("outs")
-                kw = self.attrs(it.get("attrs"))
+                kw = self.attrs(it.get("attrs"), it.get("plain", False))
                 if o is not None:
                     kw["_outputs"] = o[1] if o[0] == "a" else list(o[1])
                 res = op.call(self.fnobjs[it["f"]], *[self.arg(a) for a in it["args"]], **kw)
                 self.handles += [res] if isinstance(res, ir.Value) else list(res)
             elif k == "L":
-                kw = self.attrs(it.get("attrs"))
+                kw = self.attrs(it.get("attrs"), it.get("plain", False))
                 if it.get("outs") is not None:
                     kw["_outputs"] = list(it["outs"])
                 res = op.call_inline(
@@ -584,6 +587,7 @@ class TraceGen:
         self.stats = stats if stats is not None else Counter()
         # visible values: (handle, dt, shape, typed)
         self.vis: list[tuple] = []
+        self.alias: set[int] = set()
 
     def fresh(self, base="y"):
         self.uid += 1
@@ -740,6 +744,8 @@ class TraceGen:
         rng = self.rng
         fi = rng.randrange(len(self.fntab)) if force_fi is None else force_fi
         name, obj, impl, nin, nout, attrs = self.fntab[fi]
+        if name == "swapneg":
+            inline = True  # onnxruntime refuses a FunctionProto whose output is one of its inputs: inline only
         siblings = [j for j, f in enumerate(self.fntab) if f[0] == name and j != fi]
         if siblings:
             self.stats["call_overloaded_name" if not inline else "inline_overloaded_name"] += 1
@@ -750,10 +756,18 @@ class TraceGen:
         at_ = dict(attrs)
         if "alpha" in at_:
             at_["alpha"] = rng.choice([1.5, 2.0, -0.5])
+        if "alpha?" in at_:  # defaulted attribute: omitted half of the time
+            at_.pop("alpha?")
+            if rng.random() < 0.5:
+                at_["alpha"] = rng.choice([1.5, -0.5, 3.0])
+            else:
+                self.stats["default_attr_omitted"] += 1
+        plain = bool(at_) and rng.random() < 0.5  # plain Python attribute value instead of ir.Attr
+        self.stats["plain_attr"] += plain
         if inline:
             o = [self.fresh() for _ in range(nout)] if rng.random() < 0.35 else None
             pfx = rng.choice(["", "", "pre", "layers.1"])
-            items.append({"k": "L", "f": fi, "args": args, "outs": o, "pfx": pfx, "attrs": at_})
+            items.append({"k": "L", "f": fi, "args": args, "outs": o, "pfx": pfx, "attrs": at_, "plain": plain})
             self.stats["inline"] += 1
             self.stats["inline_prefix"] += pfx != ""
             self.stats["inline_named"] += o is not None
@@ -764,9 +778,12 @@ class TraceGen:
                 self.stats["call_literal_arg"] += 1
             r = rng.random()
             o = None if r < 0.5 else (["a", nout] if r < 0.7 else ["e", [self.fresh() for _ in range(nout)]])
-            items.append({"k": "C", "f": fi, "args": args, "outs": o, "attrs": at_})
+            items.append({"k": "C", "f": fi, "args": args, "outs": o, "attrs": at_, "plain": plain})
             self.stats["call"] += 1
             typed = False  # no schema: the builder cannot infer the node's output types
+        if inline and name == "swapneg":
+            self.alias.add(self.h)  # first output is the caller's own value: not used as a graph output
+            self.stats["inline_passthrough"] += 1
         for _ in range(nout):
             self.vis.append((self.h, "f32", (3,), typed))
             self.h += 1
@@ -882,7 +899,7 @@ class TraceGen:
             self.h += 1
         for _ in range(n_items):
             self.gen_item(items, 0)
-        roots = [v for v in self.vis if v[0] >= len(ins)]
+        roots = [v for v in self.vis if v[0] >= len(ins) and v[0] not in self.alias]
         self.rng.shuffle(roots)
         seen = set()
         for j, v in enumerate(roots[: self.rng.randint(1, 3)]):
@@ -956,8 +973,7 @@ def classify_builder_failure(case, dup_vals, dup_nodes) -> str | None:
         return None
     # (D20a — the same automatic name in two different graphs — is fixed in /repo e9794aa: such a
     #  duplicate is a violation again)
-    if uses_passthrough_inline(case):
-        return "D20c"
+    # (D20c — pass-through inline renaming — is fixed in /repo e7b46e0: a violation again)
     if underscore_digit_callee(case):
         return "D20f"
     return None
@@ -1639,6 +1655,6 @@ def main(run: core.Run) -> None:
     )
     if stats["builder_cases"] and stats["builder_real_error"] > 0.3 * stats["builder_cases"]:
         raise core.Infra("generator degenerated: >30% of traces refused by the builder")
-    for need in ("If", "Loop", "inline", "call", "two_overloads_in_trace", "call_overloaded_name", "nested_list_after_naming", "lit_list", "multi_output", "push", "append_after_naming", "slice", "kind_seq", "kind_list"):
+    for need in ("If", "Loop", "inline", "call", "two_overloads_in_trace", "call_overloaded_name", "inline_passthrough", "default_attr_omitted", "plain_attr", "nested_list_after_naming", "lit_list", "multi_output", "push", "append_after_naming", "slice", "kind_seq", "kind_list"):
         if not stats[need]:
             raise core.Infra(f"generator never produced construct {need}")
